@@ -363,6 +363,38 @@ def ob_estimator(variant, ant, norm):
                 goals.append(Goal("second estimate from the same buffer == first", np.shape(out2) == np.shape(want) and _meq(out2, want)))
             except PyRaise as pr:
                 goals.append(Goal("second estimate from the same buffer raised %r" % (pr.exc,), False))
+        if variant in ("plain", "occ"):
+            # history on one estimator object: a later observation of the SAME shape from a shorter channel (one tap), estimated with
+            # FEWER kept taps - nothing of the earlier estimate may leak into it
+            g = _cmat(c, "g", ant, 1)
+            Hb = np.empty((ant, N), dtype=object)
+            for a in range(ant):
+                pad = np.zeros(N, dtype=object)
+                pad[0] = g[a, 0]
+                Hb[a] = np.dot(F, pad)
+            if variant == "plain":
+                Yb = Hb * rs[np.newaxis, :]
+                if ant == 1:
+                    Yb = Yb[0]
+                argsb = [Yb, 0]
+            else:
+                Yb = np.empty((ant, 2, N), dtype=object)
+                for a in range(ant):
+                    for sl in range(2):
+                        Yb[a, sl] = Hb[a] * rs[sl]
+                if ant == 1:
+                    Yb = Yb[0]
+                if flat:
+                    Yb = Yb.reshape(2 * N) if ant == 1 else Yb.reshape(ant, 2 * N)
+                Yb = np.ascontiguousarray(Yb)
+                argsb = [Yb, 0, False] if flat else [Yb, 0]
+            wantb = Hb if ant == 2 else Hb[0]
+            try:
+                outb = it.call(it.getattr(est, "estimate_channel_freq_domain"), argsb)
+                goals.append(Goal("later estimate on the same object with fewer kept taps == DFT of ITS channel",
+                                  np.shape(outb) == np.shape(wantb) and _meq(outb, wantb)))
+            except PyRaise as pr:
+                goals.append(Goal("later estimate with fewer kept taps raised %r" % (pr.exc,), False))
         return goals
     return verify(body, check_side=False, timeout_ms=120000, replay=_replay_estimator(variant, ant, norm, flat))
 
@@ -403,6 +435,19 @@ def _replay_estimator(variant, ant, norm, flat):
                     got2 = est.estimate_channel_freq_domain(*args)
                     if np.shape(got2) != want.shape or (not (np.abs(got2 - want).max() <= 1e-8 * max(1.0, np.abs(want).max()))):
                         return dict(where, second_estimate_from_the_same_buffer="differs")
+                    # the same estimator, a later observation of the same shape from a one-tap channel, fewer kept taps
+                    tb = rr.randn(ant, 1) + 1j * rr.randn(ant, 1)
+                    Yb = np.fft.fft(tb, size)[:, np.newaxis, :] * seq.seq_array()[np.newaxis, :, :]
+                    if ant == 1:
+                        Yb = Yb[0]
+                    if flat:
+                        Yb = Yb.reshape(2 * size) if ant == 1 else Yb.reshape(ant, 2 * size)
+                    gb = est.estimate_channel_freq_domain(*((np.ascontiguousarray(Yb), 0, False) if flat else (np.ascontiguousarray(Yb), 0)))
+                    wb = np.fft.fft(tb, size)
+                    wb = wb if ant > 1 else wb[0]
+                    if np.shape(gb) != wb.shape or (not (np.abs(gb - wb).max() <= 1e-8 * max(1.0, np.abs(wb).max()))):
+                        return dict(where, history="estimate (2 taps kept), then an observation of a one-tap channel estimated with fewer kept taps "
+                                    "on the same estimator object", max_error=float(np.abs(gb - wb).max()) if np.shape(gb) == wb.shape else "shape")
                     continue
                 seq = SrsUeSequence(root, 0, normalize=norm)
                 Y = Hf * seq.seq_array()[np.newaxis, :]
@@ -416,6 +461,15 @@ def _replay_estimator(variant, ant, norm, flat):
                 if np.shape(got) != want.shape or (not (np.abs(got - want).max() <= 1e-8 * max(1.0, np.abs(want).max()))):
                     return dict(where, max_error=float(np.abs(got - want).max()) if np.shape(got) == want.shape else "shape",
                                 scale=float(np.abs(got).max() / max(np.abs(want).max(), 1e-300)) if np.shape(got) == want.shape else None)
+                if variant == "plain":
+                    tb = rr.randn(ant, 1) + 1j * rr.randn(ant, 1)
+                    Yb = np.fft.fft(tb, size) * seq.seq_array()[np.newaxis, :]
+                    gb = est.estimate_channel_freq_domain(Yb if ant > 1 else Yb[0], 0)
+                    wb = np.fft.fft(tb, 2 * size)
+                    wb = wb if ant > 1 else wb[0]
+                    if np.shape(gb) != wb.shape or (not (np.abs(gb - wb).max() <= 1e-8 * max(1.0, np.abs(wb).max()))):
+                        return dict(where, history="estimate (2 taps kept), then an observation of a one-tap channel estimated with fewer kept taps "
+                                    "on the same estimator object", max_error=float(np.abs(gb - wb).max()) if np.shape(gb) == wb.shape else "shape")
             return {"confirmed": False, "note": "real estimator exact for generic channels in this configuration"}
         except Exception as e:
             return {"confirmed": False, "error": "replay crashed: %r" % (e,)}
